@@ -311,9 +311,9 @@ func genList(rng *rand.Rand) []string {
 	return l
 }
 
-// dupSlack[e]: how many entries of e's latest listing repeated a name already in it (such a
-// listing is kept as sent in the per-endpoint view, so the model count shown for the endpoint
-// may be up to that much higher than the number of distinct names).
+// dupSlack[e] used to allow the model count shown for an endpoint to exceed the number of
+// distinct names by the number of repeated entries in its latest listing. A model is attributed
+// to an endpoint or it is not: the count is the number of distinct names, so the slack is 0.
 var dupSlack = map[string]int{}
 
 func sequentialHistory(run *rep.Run, rng *rand.Rand, unified bool, settleEach bool, h int) {
@@ -347,7 +347,7 @@ func sequentialHistory(run *rep.Run, rng *rand.Rand, unified bool, settleEach bo
 			trace = append(trace, opRec{"register", e, l, fmt.Sprint(err)})
 			if err == nil {
 				ref[e] = setOf(l)
-				dupSlack[e] = len(l) - len(ref[e])
+				dupSlack[e] = 0
 			}
 			last = "replace"
 			if len(l) == 0 {
